@@ -8,6 +8,7 @@ package extract
 import (
 	"fmt"
 	"go/ast"
+	"go/token"
 	"strings"
 )
 
@@ -58,6 +59,100 @@ func sfCalls(fd *ast.FuncDecl) []*ast.CallExpr {
 		return true
 	})
 	return out
+}
+
+// sfSaveShape reads how key.Save gets the text onto disk. Two shapes are recognised:
+//
+//	in place:  fd := create(filePath); encode(fd)
+//	replace:   tmpPath := filePath + <ext>; fd := create(tmpPath); encode(fd); fd.Sync(); fd.Close();
+//	           os.Rename(tmpPath, filePath)          (in this order on the success path)
+//
+// where create is fs.CreateSecureFile / os.Create on the SAME path in both branches of `if secure`.
+// secureOnWritten: the path given to fs.CreateSecureFile is the file the encoder writes into, and
+// that file is what ends up at filePath (itself, or through the rename).
+func sfSaveShape(ks *pkgFile) (inPlace, atomicRename, secureOnWritten bool, err error) {
+	save := sfFindFunc(ks, "", "Save")
+	if save == nil {
+		return false, false, false, fmt.Errorf("T-break: key.Save not found")
+	}
+	var createArgs []string
+	var posCreateMax, posEncode, posSync, posRename, posCloseAfterSync token.Pos
+	var encodeInto, renameFrom, renameTo string
+	nEncode, nRename := 0, 0
+	for _, c := range sfCalls(save) {
+		switch ch := sfChain(c.Fun); {
+		case ch == "os.Create" || ch == "fs.CreateSecureFile":
+			if len(c.Args) != 1 {
+				return false, false, false, fmt.Errorf("T-break: key.Save: %s with %d arguments", ch, len(c.Args))
+			}
+			createArgs = append(createArgs, ch+"("+sfChain(c.Args[0])+")")
+			if c.Pos() > posCreateMax {
+				posCreateMax = c.Pos()
+			}
+		case strings.HasSuffix(ch, ".Encode"):
+			nEncode++
+			posEncode = c.Pos()
+			// toml.NewEncoder(fd).Encode(...)
+			if sel, ok := c.Fun.(*ast.SelectorExpr); ok {
+				if ne, ok := sel.X.(*ast.CallExpr); ok && len(ne.Args) == 1 {
+					encodeInto = sfChain(ne.Args[0])
+				}
+			}
+		case ch == "fd.Sync":
+			if posSync == 0 {
+				posSync = c.Pos()
+			}
+		case ch == "fd.Close":
+			if posSync != 0 && c.Pos() > posSync {
+				// the first Close after the Sync call that is not inside the Sync's own error branch is
+				// found below by position: keep the last one before the rename
+				posCloseAfterSync = c.Pos()
+			}
+		case ch == "os.Rename":
+			nRename++
+			posRename = c.Pos()
+			if len(c.Args) == 2 {
+				renameFrom, renameTo = sfChain(c.Args[0]), sfChain(c.Args[1])
+			}
+		case strings.Contains(ch, "CreateTemp") || ch == "os.OpenFile" || ch == "os.WriteFile" || ch == "os.Link" || ch == "os.Symlink":
+			return false, false, false, fmt.Errorf("T-break: key.Save: unexpected call %s", ch)
+		}
+	}
+	if len(createArgs) != 2 || nEncode != 1 || encodeInto != "fd" {
+		return false, false, false, fmt.Errorf("T-break: key.Save: unexpected shape (creates=%v encodes=%d into %q)", createArgs, nEncode, encodeInto)
+	}
+	var sec, plain string
+	for _, a := range createArgs {
+		if strings.HasPrefix(a, "fs.CreateSecureFile(") {
+			sec = strings.TrimSuffix(strings.TrimPrefix(a, "fs.CreateSecureFile("), ")")
+		} else {
+			plain = strings.TrimSuffix(strings.TrimPrefix(a, "os.Create("), ")")
+		}
+	}
+	if sec == "" || plain == "" || sec != plain {
+		return false, false, false, fmt.Errorf("T-break: key.Save: the two branches create different paths (%v)", createArgs)
+	}
+	switch {
+	case sec == "filePath" && nRename == 0:
+		return true, false, true, nil
+	case nRename == 1 && renameFrom == sec && renameTo == "filePath":
+		// the temp path must be derived from the target and differ from it
+		def := ks.findValue(sec)
+		if def == nil || !strings.HasPrefix(sfChain2(def), "filePath+") {
+			return false, false, false, fmt.Errorf("T-break: key.Save: %s is not `filePath + <extension>`", sec)
+		}
+		ordered := posCreateMax < posEncode && posEncode < posSync && posSync < posCloseAfterSync && posCloseAfterSync < posRename
+		return false, ordered, true, nil
+	}
+	return false, false, false, fmt.Errorf("T-break: key.Save: creates %s, renames %q -> %q: neither the in-place nor the write-aside-and-rename shape", sec, renameFrom, renameTo)
+}
+
+// sfChain2 renders a binary + expression of identifiers ("filePath+tmpExtension").
+func sfChain2(e ast.Expr) string {
+	if b, ok := e.(*ast.BinaryExpr); ok && b.Op == token.ADD {
+		return sfChain2(b.X) + "+" + sfChain2(b.Y)
+	}
+	return sfChain(e)
 }
 
 func genSaveFlags(repo string) (string, error) {
@@ -184,6 +279,16 @@ func genSaveFlags(repo string) (string, error) {
 			return "", fmt.Errorf("T-break: saveflags: no bolt.Open call in %s", f)
 		}
 	}
+	inPlace, atomicRename, secureOnWritten, err := sfSaveShape(ks)
+	if err != nil {
+		return "", fmt.Errorf("T-break: saveflags: %w", err)
+	}
+	bb := func(x bool) string {
+		if x {
+			return "true"
+		}
+		return "false"
+	}
 	var sb strings.Builder
 	sb.WriteString("(* GENERATED by zzv extract (harness/extract/saveflags.go) from common/key/store.go; do not edit.\n   The `secure` argument of key.Save at the call site that writes each key-store file. *)\n")
 	sb.WriteString("From DV Require Import Model.Secrecy.\n")
@@ -192,5 +297,9 @@ func genSaveFlags(repo string) (string, error) {
 		fmt.Fprintf(&sb, "  | %s => %s\n", f, flags[f])
 	}
 	sb.WriteString("  | _ => false\n  end.\n")
+	sb.WriteString("(* key.Save writes the text into a temporary file next to the target, Sync, Close, and only then\n   renames it over the target (false: it creates/truncates the target itself and writes it in place) *)\n")
+	fmt.Fprintf(&sb, "Definition save_in_place : bool := %s.\nDefinition save_atomic_rename : bool := %s.\n", bb(inPlace), bb(atomicRename))
+	sb.WriteString("(* the path handed to fs.CreateSecureFile is the file the encoder writes into and the file that ends\n   up at the target: the owner-only mode is on it before the first content byte and survives the rename *)\n")
+	fmt.Fprintf(&sb, "Definition save_secure_on_written_file : bool := %s.\n", bb(secureOnWritten))
 	return sb.String(), nil
 }
